@@ -8,11 +8,11 @@ def register(add):
         replace=['SHA224_256ProcessMessageBlock'], unwind=66,
         bound_note='padding loops bounded by the 64-byte block; unwound completely', **base)
     add('sha256_input', ['C14'], 'SHA256Input', decls='SHA256Context *c; const uint8_t *m; unsigned n;', call='SHA256Input(c, m, n)',
-        replace=['SHA224_256ProcessMessageBlock'], loops=True, timeout=600,
+        replace=['SHA224_256ProcessMessageBlock'], loops=True, timeout=300, arb_n=8,
         bound_note='all message lengths up to 100000 bytes: the byte loop is closed by a loop contract', **base)
     b5 = dict(sources=['src/md/sha384-512.c'], headers=['sha512_pad.h', 'sha_state.h'], conf='base', route='proof', defines=['VC_SHA5_STATICS'])
     add('sha512_pad', ['C14'], 'SHA384_512PadMessage', decls='SHA512Context *c; uint8_t pad;', call='SHA384_512PadMessage(c, pad)',
         replace=['SHA384_512ProcessMessageBlock'], unwind=130, bound_note='padding loops bounded by the 128-byte block; unwound completely', **b5)
     add('sha512_input', ['C14'], 'SHA512Input', decls='SHA512Context *c; const uint8_t *m; unsigned n;', call='SHA512Input(c, m, n)',
-        replace=['SHA384_512ProcessMessageBlock'], loops=True, timeout=600,
+        replace=['SHA384_512ProcessMessageBlock'], loops=True, timeout=300, arb_n=8,
         bound_note='all message lengths up to 100000 bytes: the byte loop is closed by a loop contract', **b5)
